@@ -12,10 +12,19 @@ PROPS = {
     "C01": {
         "runs": [
             {"harness": "H_C01_snapshot", "quick": {"n": 5}, "thorough": {"n": 7}},
+            {"harness": "H_C01_struct", "quick": {"lines": 3}, "thorough": {"lines": 4}},
+            {"harness": "H_C01_json", "quick": {"n": 2}, "thorough": {"n": 3}},
+            {"harness": "H_C01_many", "quick": {"n": 2}, "thorough": {"n": 3}},
+            {"harness": "H_C01_longline", "quick": {"len": 70000}, "thorough": {"len": 70000}},
+            {"harness": "H_C01_shadow", "quick": {"n": 2}, "thorough": {"n": 3}},
+            {"harness": "H_C01_mixed", "thorough_only": True, "thorough": {"n": 1, "m": 1}, "timeout_s": 900},
         ],
-        "bounds": {"quick": "formatted text <= 5 bytes", "thorough": "formatted text <= 7 bytes"},
+        "bounds": {"quick": "MatchSnapshot text: every byte string <= 5 bytes; 1..3 lines each of 8 shapes around the tokens --- and /-/-/-/ with symbolic filler, via MatchSnapshot and MatchYAML next to a pre-existing entry; "
+                            "JSON templates with string leaves <= 2 bytes; 11 calls in one test (ordinals 1 and 10 symbolic); one 70 000-byte line; a body line shaped like another test's header",
+                   "thorough": "every byte string <= 7 bytes; 1..4 structured lines; mixes of the three kinds over two tests"},
         "assumptions": COMMON_ASSUME + ["no line of the text ends in a carriage return (documented limitation)"],
-        "outside": ["structured Go values (only their formatted text is quantified)"],
+        "outside": ["structured Go values (only their formatted text is quantified)",
+                    "a stored body with a whole line equal to the header of a slot addressed in the same file (known finding K2)"],
     },
     "C02": {
         "runs": [
@@ -23,6 +32,7 @@ PROPS = {
             {"harness": "H_C02_snapshot", "params": {"ascii": 0}, "quick": {"n": 2}, "thorough": {"n": 2}},
             {"harness": "H_C02_snapshot", "params": {"ascii": 1, "n0lo": 7, "n0hi": 7, "n1lo": 3, "n1hi": 3}},
             {"harness": "H_C02_snapshot", "params": {"ascii": 1, "n0lo": 3, "n0hi": 3, "n1lo": 7, "n1hi": 7}},
+            {"harness": "H_C02_struct", "quick": {"lines": 2}, "thorough": {"lines": 2}},
         ],
         "bounds": {"quick": "MatchSnapshot; ASCII texts <= 3 bytes each; arbitrary bytes <= 2 each; 7-byte vs 3-byte ASCII texts (escape token vs terminator)",
                    "thorough": "ASCII texts <= 5 bytes each; arbitrary bytes <= 2 each; 7 vs 3"},
@@ -46,10 +56,10 @@ PROPS = {
     },
     "C03": {
         "runs": [
-            {"harness": "H_C03_addressing", "quick": {"pre": 2, "calls": 3}, "thorough": {"pre": 11, "calls": 3}},
+            {"harness": "H_C03_addressing", "quick": {"pre": 2, "steps": 3}, "thorough": {"pre": 11, "steps": 3}},
             {"harness": "H_C03_isolation", "reach": ["add", "update"], "quick": {"frames": 2, "n": 3}, "thorough": {"frames": 3, "n": 3}},
         ],
-        "bounds": {"quick": "addressing: 2 tests from a pool of 4 names with prefix relations, 0..2 earlier calls each, 1..3 observed calls, each passing or failing; "
+        "bounds": {"quick": "addressing: 2 distinct tests from a pool of 4 names with prefix relations, 0 or 2 earlier calls each, then 1..3 steps, each a passing / mismatching / invalid-JSON / matcher-error call of either test or the end of an execution of either test; "
                             "isolation: files of 0..2 frames with bodies <= 3 arbitrary bytes, one add or update with a body <= 3 bytes",
                    "thorough": "0..11 earlier calls (ordinals above 9); files of 0..3 frames"},
         "assumptions": COMMON_ASSUME + ["pre-existing files are well formed: bodies have no whole line `---` and no CR at end of line"],
@@ -58,6 +68,8 @@ PROPS = {
     "C04": {
         "runs": [
             {"harness": "H_C04_update", "reach": ["changed", "unchanged"], "quick": {"frames": 2, "n": 2}, "thorough": {"frames": 2, "n": 3}},
+            {"harness": "H_C04_update", "params": {"struct": 1, "frames": 1}, "quick": {"lines": 2}, "thorough": {"lines": 3}},
+            {"harness": "H_C04_update", "params": {"struct": 1, "frames": 2, "minframes": 2}, "quick": {"lines": 1}, "thorough": {"lines": 1}},
             {"harness": "H_C04_standalone", "quick": {"n": 3}, "thorough": {"n": 4}},
         ],
         "bounds": {"quick": "1..2 entries, each changed or not, old/new ASCII texts <= 2 bytes; standalone: texts <= 3 bytes",
@@ -128,7 +140,8 @@ PROPS = {
     },
     "C07": {
         "runs": [
-            {"harness": "H_clean", "params": {"prop": 7}, "quick": {"count": 2, "n": 1}, "thorough": {"count": 3, "n": 1, "n0": 1}},
+            {"harness": "H_clean", "params": {"prop": 7}, "quick": {"count": 2, "n": 0}, "thorough": {"count": 3, "n": 1, "n0": 1}},
+            {"harness": "H_C10_bodies", "quick": {"lines": 2}, "thorough": {"lines": 3}},
         ],
         "bounds": {"quick": "program: TestA (2 calls), TestB (1 call), TestS (1 standalone call), -count 1..2; directory with optional stale ordinal, stale test, "
                             "stale standalone file, stale multi-entry file, 3 layouts; CI x UPDATE_SNAPS (<= 5 bytes) x sort; one live body symbolic (<= 1 byte)",
@@ -138,7 +151,7 @@ PROPS = {
     },
     "C09": {
         "runs": [
-            {"harness": "H_clean", "params": {"prop": 9}, "reach": ["stale-entries"], "quick": {"count": 2, "n": 1}, "thorough": {"count": 3, "n": 1, "n0": 1}},
+            {"harness": "H_clean", "params": {"prop": 9}, "reach": ["stale-entries", "second-file-stale"], "quick": {"count": 2, "n": 0}, "thorough": {"count": 3, "n": 1, "n0": 1}},
         ],
         "bounds": {"quick": "same program and directory shapes as C07; all three Clean modes incl. sort requested on an unsorted file with stale entries",
                    "thorough": "-count 1..3, all bodies symbolic"},
@@ -158,12 +171,15 @@ PROPS = {
     },
     "C10": {
         "runs": [
-            {"harness": "H_C10_rewrite", "reach": ["no-op", "rewrite"], "quick": {"frames": 2, "n": 1, "digits": 1}, "thorough": {"frames": 2, "n": 1, "digits": 2}},
+            {"harness": "H_C10_rewrite", "reach": ["no-op", "rewrite"], "quick": {"frames": 2, "n": 1, "digits": 1}, "thorough": {"frames": 2, "n": 0, "digits": 2}, "timeout_s": {"thorough": 1500}},
+            {"harness": "H_C10_bodies", "quick": {"lines": 2}, "thorough": {"lines": 3}},
+            {"harness": "H_C10_natural"},
         ],
-        "bounds": {"quick": "files of 1..2 entries with ids Test<a-c> - <1-9> (symbolic letter and digit), bodies of <= 1 arbitrary byte, each entry stale or live, update x sort",
-                   "thorough": "ordinals of 1..2 digits"},
+        "bounds": {"quick": "files of 1..2 entries with ids Test<a-c> - <1-9> (symbolic letter and digit), bodies of <= 1 arbitrary byte, each entry stale or live, update x sort; "
+                            "one entry with a 1..2-line structured body (token shapes, header-like line) rewritten because of a stale or unsorted neighbour; one- vs two-digit ordinals (symbolic digits) in both orders",
+                   "thorough": "ordinals of 1..2 digits with empty bodies; structured bodies of 1..3 lines"},
         "assumptions": COMMON_ASSUME + ["well-formed file: ids pairwise distinct, bodies without a `---` line and without CR at end of line"],
-        "outside": ["bodies with a line that looks like an entry header `[Test... - n]` (Clean reads it as a header: same root cause as known finding K2)"],
+        "outside": ["bodies with a whole line equal to the header of an entry of the same file (known finding K2)"],
     },
     "C11": {
         "runs": [
